@@ -20,7 +20,7 @@ REPO_DIR="${VERIF_REPO:-${VP_RUN_REPO:-/repo}}"
 if [ "$REPO_DIR" != "/repo" ]; then
     ALT="$TARGET/alt-harness"
     mkdir -p "$ALT"
-    rsync -a --delete --exclude "target*" "$HARNESS/" "$ALT/"
+    rsync -a --delete --exclude "/target" --exclude "/target-*" "$HARNESS/" "$ALT/"
     sed -i "s#\"/repo/#\"$REPO_DIR/#g" "$ALT/Cargo.toml"
     HARNESS="$ALT"
 fi
